@@ -7,6 +7,12 @@ ids = sys.argv[1:] or sorted(d for d in os.listdir(os.path.join(V, "seeded")) if
 res = {}
 try: res = json.load(open(os.path.join(V, "seeded", "RESULTS.json")))
 except Exception: pass
+# the evidence files, generated Coq files and replays written during these runs describe the modified tree: they are
+# put back as they were before (the clean-tree runs own them)
+import shutil, tempfile
+keep = tempfile.mkdtemp(prefix="seeded-keep-")
+for d in ("evidence", os.path.join("coq", "gen")):
+    shutil.copytree(os.path.join(V, d), os.path.join(keep, d))
 for pid in ids:
     patch = os.path.join(V, "seeded", pid, "patch.diff")
     assert subprocess.run(["git", "-C", "/repo", "status", "--porcelain", "--untracked-files=no"], capture_output=True, text=True).stdout.strip() == "", "/repo is not clean"
@@ -25,4 +31,8 @@ for pid in ids:
         subprocess.run(["git", "-C", "/repo", "checkout", "--", "."])
     print(pid, json.dumps(res[pid]), flush=True)
     json.dump(res, open(os.path.join(V, "seeded", "RESULTS.json"), "w"), indent=1)
-# the evidence files and replays written during these runs describe the modified tree: rerun the checks on the clean tree afterwards
+for d in ("evidence", os.path.join("coq", "gen")):
+    for f in os.listdir(os.path.join(keep, d)):
+        shutil.copy(os.path.join(keep, d, f), os.path.join(V, d, f))      # (new modification time: compiled files built from the modified tree are out of date)
+shutil.rmtree(keep, ignore_errors=True)
+shutil.rmtree(os.path.join(V, "replays"), ignore_errors=True)
